@@ -41,6 +41,7 @@ NORMALISATIONS = [
     '(control flow kept; message arguments not evaluated)',
     '`matches!(E, b".." | b"..")` on a slice is expanded to length + element comparisons generated from the literals (Verus mis-encodes byte-string patterns)',
     'a `const NAME: T = e;` item inside a function body becomes `let NAME: T = e;` (Verus gives body-local consts spec mode)',
+    '`//@ inline NAME`: a parameterless non-escaping local closure is inlined at its call sites (calls must be in return position, or of the form `NAME()?` when the closure leaves early only through `?` / fail!, when the closure can leave early; not inside loops / other closures)',
     'the per-unit rewrite table (regex => replacement with expected match count) listed under rewrites',
 ]
 
@@ -178,6 +179,53 @@ def _expand_bytes_matches(body):
     return rx.sub(rep, body)
 
 
+def _inline_closure(body, name, label, log):
+    """`let [mut] NAME = || [-> T] { B };` is deleted and every call `NAME()` is replaced by the block `{ B }` (Verus has no
+    closures that capture mutable state).  Only for parameterless, non-escaping closures; when B can leave the closure early
+    (`return`, `?`, `fail!`) every call must be in return position of the function (`return NAME();` or the function's
+    tail), where leaving the closure and leaving the function coincide -- checked here, otherwise Undecided."""
+    m = rsrc.mask(body)
+    mm = re.search(r'\blet\s+(?:mut\s+)?%s\s*=\s*(?:move\s*)?\|\s*\|\s*(?:->\s*[^{]+?)?\{' % re.escape(name), m)
+    if not mm:
+        raise Undecided('%s: inline: no parameterless closure `%s`' % (label, name))
+    o = mm.end() - 1
+    e = rsrc.match_close(m, o)
+    semi = re.match(r'\s*;', m[e:])
+    if not semi:
+        raise Undecided('%s: inline: closure `%s` is not a plain let statement' % (label, name))
+    block = body[o:e]
+    mblock = m[o:e]
+    early = bool(re.search(r'\breturn\b|\?|\bfail!', mblock))
+    rest = body[:mm.start()] + body[e + semi.end():]
+    mrest = rsrc.mask(rest)
+    uses = [x for x in re.finditer(r'\b%s\b' % re.escape(name), mrest)]
+    calls = [x for x in re.finditer(r'\b%s\(\s*\)' % re.escape(name), mrest)]
+    if len(uses) != len(calls) or not calls:
+        raise Undecided('%s: inline: closure `%s` escapes or is never called (%d uses, %d calls)' % (label, name, len(uses), len(calls)))
+    out = []
+    i = 0
+    for c in calls:
+        if early:
+            before = mrest[:c.start()].rstrip()
+            after = mrest[c.end():]
+            is_ret = before.endswith('return') and after.lstrip().startswith(';')
+            is_tail = re.fullmatch(r'[\s,}]*', after) is not None
+            for lk in re.finditer(r'\b(loop|while|for)\b|\|[^|]*\|\s*(?:->\s*[^{]+?)?\{', mrest[:c.start()]):
+                ob = mrest.find('{', lk.end() - 1)
+                if 0 <= ob < c.start() and rsrc.match_close(mrest, ob) > c.start():
+                    raise Undecided('%s: inline: call of `%s` inside a loop or another closure' % (label, name))
+            # `NAME()?`: fine when the closure only leaves early with an Err (`?` / fail!), which `?` would propagate anyway
+            is_try = after.lstrip().startswith('?') and not re.search(r'\breturn\b', mblock)
+            if not (is_ret or is_tail or is_try):
+                raise Undecided('%s: inline: closure `%s` can leave early and is called outside return position' % (label, name))
+        out.append(rest[i:c.start()])
+        out.append(block)
+        i = c.end()
+    out.append(rest[i:])
+    log.append({'in': label, 'inline_closure': name, 'calls': len(calls), 'can_leave_early': early})
+    return ''.join(out)
+
+
 def _name_return(sig, ret):
     """`-> T` => `-> (ret: T)` at bracket depth 0 of the signature (where clauses kept)."""
     m = rsrc.mask(sig)
@@ -213,6 +261,7 @@ class FnBlock:
         self.spec = []
         self.loops = {}
         self.forghost = {}
+        self.inline = []
 
 
 def expand(template_path, repo=REPO):
@@ -288,6 +337,9 @@ def expand(template_path, repo=REPO):
                 elif t_.startswith('//@ rw '):
                     fb.rw.append(_parse_rw(t_[len('//@ rw '):]))
                     cur = None
+                elif t_.startswith('//@ inline '):
+                    fb.inline.append(t_.split()[2])
+                    cur = None
                 elif t_ == '//@ spec':
                     cur = fb.spec
                 elif t_.startswith('//@ loop '):
@@ -350,6 +402,8 @@ def _emit_fn(fb, src, out, meta):
     body = re.sub(r'(?m)^([ \t]*)const ([A-Z_][A-Z0-9_]*)\s*:', r'\1let \2:', body)
     body = re.sub(r'(?m)^[ \t]*self\.verify_init\([^;]*\);[ \t]*\n', '', body)
     body = re.sub(r'(?m)^[ \t]*#\[(inline|allow|cfg_attr|deny)[^\]]*\]\s*\n', '', body)
+    for nm in fb.inline:
+        body = _inline_closure(body, nm, label, meta['rewrites'])
     body = _apply_rw(body, fb.rw, label, meta['rewrites'])
     # --- splice loop contracts (from the last loop to the first so offsets stay valid)
     if fb.loops or fb.forghost:
@@ -409,7 +463,7 @@ def _parse_fn_blocks(template_path):
                 t_ = lines[i].strip()
                 if t_.startswith('//@ sig '):
                     fb.sig_rw.append(_parse_rw(t_[len('//@ sig '):])); cur = None
-                elif t_.startswith('//@ rw '):
+                elif t_.startswith('//@ rw ') or t_.startswith('//@ inline '):
                     cur = None
                 elif t_ == '//@ spec':
                     cur = fb.spec
